@@ -26,8 +26,8 @@ META = {
     "ready": True,
     "category": "proof",
     "technique": "Lean 4 model of Steel's lexer, datum parser and writers (write and print); round-trip theorem by structural induction over all data; fuel-adequacy theorems (totality of the model reader), character-boundary theorem for token spans; generated-table tie to the Rust formatter; differential run of the real TokenStream/Parser/(write)/(print)/(read) against the compiled model on generated texts and data, plus a model-independent identity on the real lexer (|B| names the characters of \"B\")",
-    "level_text": "Theorems of SteelVerif/C12/Props.lean about the model: the token spans and the error span the model reader reports lie inside the text (spans_in_bounds, read_total_partial), tokens are in order, every token span starts and ends on a character boundary (spans_on_char_boundaries; error spans not covered); the model reader never gives up: the lexer's loops never exhaust their fuel on any text and every token consumes a character (lex_fuel_adequate, token_consumes), the parser never exhausts its fuel (3 x tokens + 3 suffices), so on every text without a @doc comment read returns data or a genuine error inside the text (read_total), and when the token stream holds no polar literal either it never answers unmodelled (read_total_modelled): the two kinds of input that reach unmodelled, @doc comments and polar literals, are named exactly and are decidable conditions on the token stream; a failure of the real reader itself is only looked for by execution. read (write d) = [d] for every datum d of the well-formedness class WF (read_write_partial_*), by induction over all data (any nesting up to the writer's depth limit, any code points in strings and characters). The class excludes inexact numbers, symbols whose name is not a plain identifier, the quotation forms other than quote, and nesting deeper than 128; for the latter write_beyond_limit / write_deep state what the writer does (every datum at level 128 or deeper is printed as ...), depth_guard_tight / counter_depth_129 that two different well-formed data of depth 129 are written identically, so the guard depth <= 128 is exact. The clauses no theorem carries are listed at the end of Props.lean (among them parse(pretty(ast)) = ast, the quasi-quotation forms, |..| symbol names). The full statement ReadWrite (all representable data) is kept visible and is refuted for the model by concrete witnesses that are replayed on the real code (open findings). The model is hand-written; it is tied to crates/steel-parser, steel-core's writer and scheme/print.scm on every run by comparing tokens, spans, parse results and written/printed text with the real code on corpus, generated texts (incl. |..| identifiers with every mix of 1-4 byte characters, blanks and escapes at every position relative to the first escape, alone and inside larger data) and generated data (incl. symbols with arbitrary names printed by print with |..| quoting and read back).",
-    "level_note": "Trusted: Lean kernel (axioms propext, Classical.choice, Quot.sound only), harness/driver/orchestrator comparison, the Rust formatter table regenerated by translate/c12_unicode.py. Not modelled: inexact numbers (compared by bit pattern on the real code only), program-level lowering (Parser::parse is checked for totality and for parse(pretty(ast)) = ast by execution only), @doc comments, invalid UTF-8 (the Rust API takes &str), native stack depth; print is modelled for symbols, strings, integers, lists, vectors and pairs only (no theorem about it).",
+    "level_text": "Theorems of SteelVerif/C12/Props.lean about the model: the token spans and the error span the model reader reports lie inside the text (spans_in_bounds, read_total_partial), tokens are in order, every token span starts and ends on a character boundary (spans_on_char_boundaries; error spans not covered); the model reader never gives up: the lexer's loops never exhaust their fuel on any text and every token consumes a character (lex_fuel_adequate, token_consumes), the parser never exhausts its fuel (3 x tokens + 3 suffices), so on every text without a @doc comment read returns data or a genuine error inside the text (read_total), and when the token stream holds no polar literal either it never answers unmodelled (read_total_modelled): the two kinds of input that reach unmodelled, @doc comments and polar literals, are named exactly and are decidable conditions on the token stream; a failure of the real reader itself is only looked for by execution. read (write d) = [d] for every datum d of the well-formedness class WF (read_write_partial_*), by induction over all data (any nesting up to the writer's depth limit, any code points in strings and characters). The class contains (quote d), (quasiquote d) and every list headed by quasiquote (read_write_quasiquote: the reader's quasi-quotation depth moves but nothing it builds from written text depends on it), and (unquote x ..) / (unquote-splicing x ..) when only atoms follow the head (read_write_unquote); it excludes inexact numbers, symbols whose name is not a plain identifier, lists and vectors headed by unquote / unquote-splicing that hold a compound datum (there the reader renames the head, K12c: the property is false), pairs whose car is one of these two symbols (not proved), and nesting deeper than 128; for the latter write_beyond_limit / write_deep state what the writer does (every datum at level 128 or deeper is printed as ...), depth_guard_tight / counter_depth_129 that two different well-formed data of depth 129 are written identically, so the guard depth <= 128 is exact. The clauses no theorem carries are listed at the end of Props.lean (among them parse(pretty(ast)) = ast, |..| symbol names). The integer parser of the model follows IntLiteral::from_str_radix including its BigInt fallback that takes `_` between digits when the tree has it (flag regenerated from the real parser on every run; finding K12n for string->number); underscore_inert: without a `_` the fallback changes nothing, reader_never_parses_underscore: read_number never hands a slice with `_` to the number parser, so the reader and symbol round trips are unaffected. The full statement ReadWrite (all representable data) is kept visible and is refuted for the model by concrete witnesses that are replayed on the real code (open findings). The model is hand-written; it is tied to crates/steel-parser, steel-core's writer and scheme/print.scm on every run by comparing tokens, spans, parse results and written/printed text with the real code on corpus, generated texts (incl. |..| identifiers with every mix of 1-4 byte characters, blanks and escapes at every position relative to the first escape, alone and inside larger data) and generated data (incl. symbols with arbitrary names printed by print with |..| quoting and read back).",
+    "level_note": "Trusted: Lean kernel (axioms propext, Classical.choice, Quot.sound only), harness/driver/orchestrator comparison, the Rust formatter table and the integer-parser leniency flag regenerated by translate/c12_unicode.py from the running harness. Not modelled: inexact numbers (compared by bit pattern on the real code only), program-level lowering (Parser::parse is checked for totality and for parse(pretty(ast)) = ast by execution only), @doc comments, invalid UTF-8 (the Rust API takes &str), native stack depth; print is modelled for symbols, strings, integers, lists, vectors and pairs only (no theorem about it).",
 }
 
 EOF_DUMP = "O28656f6629"          # `(eof)`: how the eof object prints
@@ -45,6 +45,7 @@ PROPOSED = {
     "K12i": ("shared_reader_keeps_leftover_text", "findings/C12-K12i.txt"),
     "K12j": ("ast_printer_does_not_escape_strings_or_quote_identifiers", "findings/C12-K12j.txt"),
     "K12l": ("reader_recursion_exhausts_native_stack", "findings/C12-K12l.txt"),
+    "K12n": ("string_to_number_accepts_underscore_digit_separators", "findings/C12-K12n.txt"),
     "K12m": ("print_does_not_escape_backslash_in_quoted_symbol", "findings/C12-K12m.txt"),
 }
 
@@ -275,7 +276,8 @@ def gen_number(r):
     elif k == 8:
         body = real(radix) + "@" + real(radix)
     else:
-        body = real(radix) + r.choice(["+", "-", "/", "//", "..", "ee", "@@", "i", "+i+i", "/0", "/-1", "}", "{", "x"])
+        body = real(radix) + r.choice(["+", "-", "/", "//", "..", "ee", "@@", "i", "+i+i", "/0", "/-1", "}", "{", "x", "_0", "_", "_000", "_0/3",
+                                  "_0.5", "_0e2", "__1"])
     return prefix + body
 
 
@@ -407,7 +409,10 @@ def gen_ident(r):
                          "unquote", "quasiquote", "unquote-splicing", "#%unquote"])
     if k == 7:
         return r.choice(["+", "-", "+a", "-a", "++", "--", "+1a", "-1a", "1+", "1-", "->x", "+|a b|", "1|a b|", ".a",
-                         "..", "a.b", "+.", "-.", "+e", "e", "i", "+i", "-i", "+ii", "a'b", "a\\'b", "a\\", "a\\ b"])
+                         "..", "a.b", "+.", "-.", "+e", "e", "i", "+i", "-i", "+ii", "a'b", "a\\'b", "a\\", "a\\ b",
+                         # digit strings with `_` (num-bigint's digit separator: a number for string->number, K12n)
+                         "1_0", "1_000/3", "_1", "1_", "1__0", "+1_0", "-1_0", "#x1_f", "#b1_0", "1_0.5", "1_0e2", "1/1_0",
+                         "1_0+2i", "1_0@2", "12345678901234567890_1", "-_1", "#e1_0"])
     if k == 8:
         return "#" + r.choice(["t", "f", "true", "false", "tru", ":kw", ":", "a", "a'b", "a,b", "a,@b", "%x", "xyz",
                                "xff", "b2", "<a", "<", "!", "u8", "u", "u8x", "\\"])
@@ -503,6 +508,7 @@ def directed_texts():
         "#t #f #true #false #tr", "#:k #: #:k'x", "#<<E\nbody E\nE", "#<<\n", "#<<E", "#<< E\nx", "##", "###",
         ";@doc\n(define x 1)", ";; @doc\nx", "a;b\nc", "a#|b|#c", "a#;b c", "\u2028a\u3000b\x85c",
         "(string->number \"é/2\")",
+        "1_0", "1_000/3", "(1_0 . _1)", "#(1_ 1__0 -1_0 +1_0)", "#x1_f", "#u8(1_0)", "'1_0", "1_0|a|", "(string->number \"1_0\")",
     ]
     return t
 
@@ -516,6 +522,7 @@ NAMES_ODD = ["", " ", "a b", "a\tb", "a\nb", "(", ")", "a(b", "a)b", "[", "]", "
              "a;b", "\"", "a\"b", "\\", "a\\b", "|", "|a|", "||", "a|", "#", "#t", "#f", "#true", "#\\a", "#(", "#u8(",
              "#|", "#;", "##", "#<", "#<<", "#!", "#x10", "#b1", "#d1", "#e1", "#xyz", ".", "..", "1", "12", "-1", "+1", "1/2",
              "1.5", "1e5", "+inf.0", "-nan.0", "+i", "1+2i", "1@2", ".5", "-.5", "+", "++", "+a", "+λ", "+ a", "1 ",
+             "1_0", "1_000/3", "_1", "1_", "1__0", "-1_0", "#x1_f", "12345678901234567890_1", "1_0.5",
              "defn", "fn", "λ", "#%define", "#%plain-lambda", "unquote", "quasiquote", "unquote-splicing", "\x00", "\x7f",
              "\u00a0", "\u200b", "\u2028", "\u3000", "\U0001f600", "a\U0010ffff", "\ufeff", "A", "ABC"]
 HEADS = ["unquote", "quasiquote", "unquote-splicing", "quote"]
@@ -586,7 +593,11 @@ def gen_datum(r, depth, floats=False, heads=False, plain=False):
         return " ".join(["V%d" % len(items)] + items)
     if k < 9:
         return "P " + gen_datum(r, depth - 1, floats, heads, plain) + " " + gen_datum(r, depth - 1, floats, heads, plain)
-    name = r.choice(HEADS if heads else ["quote"])
+    name = r.choice(HEADS if heads else ["quote", "quote", "quasiquote"])
+    if heads and r.random() < 0.3:
+        # (unquote atom ...) / (unquote-splicing atom ...): inside the class of the round-trip theorem
+        return " ".join(["L%d" % (1 + n), "y" + hx(r.choice(["unquote", "unquote-splicing"]))] +
+                        [gen_atom(r, False, True) for _ in range(n)])
     return "L2 y%s %s" % (hx(name), gen_datum(r, depth - 1, floats, heads, plain))
 
 
@@ -648,6 +659,7 @@ def parse_notation(toks, i=0):
 RUST_WS = set(" \t\n\r\x0b\x0c\x85\xa0\u1680\u2028\u2029\u202f\u205f\u3000") | {chr(c) for c in range(0x2000, 0x200b)}
 ALIASED = {"defn", "fn", "λ", "#%define", "#%plain-lambda"}
 QQ = {"unquote", "quasiquote", "unquote-splicing"}
+RENAMED = {"unquote", "unquote-splicing"}
 
 
 def is_plain_char(c):
@@ -683,7 +695,10 @@ def datum_features(tree, depth=1, feats=None):
     elif tag == "F":
         feats["float"] = True
     elif tag in "LVP":
-        if body and body[0][0] == "y" and unhx(body[0][1]) in QQ:     # lists, pairs and vectors alike
+        # exact copy of the Lean guard (Model.lean WF: headOK || restAtomic; pairs: !isQQ car): the head is `unquote` /
+        # `unquote-splicing` and a compound datum follows it (a list headed by `quasiquote` is inside the class)
+        if body and body[0][0] == "y" and unhx(body[0][1]) in RENAMED and (
+                tag == "P" or any(x[0] in "LVPB" for x in body[1:])):
             feats["qq_head"] = True
         for x in body:
             datum_features(x, depth + 1, feats)
@@ -1280,6 +1295,18 @@ def run(ctx):
             ck.known("K12i", "replay=%s (read p1) left `2` in the shared reader; (read p2) returned it instead of 3" % PROPOSED["K12i"][1])
         elif line != "ok L2 i1 i3":
             ck.violation("reader-state", ["eval " + hx(src)], "unexpected result " + line[:200])
+
+    # 4b. `_` in digit strings (K12n): the reader makes a symbol of `1_0` (checked above, tokens vs model, and by the
+    # symbol round trips); string->number must not make a number of it
+    src = '(list (string->number "1_0") (string->number "1_000/3") (symbol? (read (open-input-string "1_0"))))'
+    line = ck.real.run(["eval " + hx(src)])[0] or "CRASH"
+    if line == "ok L3 i10 r1000/3 t":
+        if "K12n" in ck.open:
+            ck.known("K12n", "replay=%s (string->number \"1_0\") => 10 while (read) of 1_0 is a symbol" % PROPOSED["K12n"][1])
+        else:
+            ctx.notes.append("string->number accepts `_` between digits (proposed finding K12n, not listed): " + line)
+    elif line != "ok L3 f f t":
+        ck.violation("strnum-underscore", ["eval " + hx(src)], "unexpected result " + line[:200])
 
     # 5. native recursion of the reader (K12l): one probe far beyond the depth the check requires (10^4)
     deep = "'" * 100000 + "a"
